@@ -192,12 +192,17 @@ func C18Scenario() *Scenario {
 			return n
 		}
 		// one operation, drawn from the tape
-		doOp := func(w *World) {
-			kinds := []string{"subscribe", "add-handler", "add-handler-resync", "remove-handlers", "close", "object-edit", "object-create", "object-delete", "advance", "add-handler-racing", "remove-handlers-racing", "close-racing", "subscribe-racing", "remove-handlers-midround", "object-delete-in-watch-gap"}
+		var doOp func(w *World)
+		forcedOp, forcedSub := "", (*c18Sub)(nil)
+		doOp = func(w *World) {
+			kinds := []string{"subscribe", "add-handler", "add-handler-resync", "remove-handlers", "close", "object-edit", "object-create", "object-delete", "advance", "add-handler-racing", "remove-handlers-racing", "close-racing", "subscribe-racing", "remove-handlers-midround", "object-delete-in-watch-gap", "close-then-subscribe-at-once"}
 			if !widgetKnown {
 				kinds = append(kinds, "discovery-back", "subscribe", "subscribe-racing")
 			}
 			op := kinds[t.Pick(len(kinds), "op")]
+			if forcedOp != "" {
+				op, forcedOp = forcedOp, ""
+			}
 			var open []*c18Sub
 			for _, s := range subs {
 				if s.closeStep == 0 {
@@ -290,15 +295,46 @@ func C18Scenario() *Scenario {
 				s := &c18Sub{id: len(subs), res: res, ri: ri, openStep: w.step, inc: w.inc}
 				subs = append(subs, s)
 				opLog = append(opLog, fmt.Sprintf("%d subscribe#%d %s", w.step, s.id, res.Kind))
+				if count(res) == 1 && t.Pick(3, "handler-during-first-list") == 2 {
+					// the first subscriber adds its handler while the informer's first LIST is
+					// being answered (a controller starting against a populated cluster)
+					w.settle()
+					forcedOp, forcedSub = "add-handler-racing", s
+					doOp(w)
+				}
 			case "add-handler", "add-handler-resync", "add-handler-racing":
 				if len(open) == 0 {
 					return
 				}
 				s := open[t.Pick(len(open), "sub")]
+				if forcedSub != nil {
+					s, forcedSub = forcedSub, nil
+				}
+				listRace := false
+				if op == "add-handler-racing" {
+					// the informer of this resource is still waiting for its first LIST: answer it
+					// and add the handler within the same kernel step, so that the handler
+					// arrives while the listed objects are being taken into the cache
+					for _, r := range w.PendingReqs() {
+						if r.Method == "GET" && r.Query.Get("watch") != "true" && strings.HasSuffix(r.Path, "/"+s.res.Plural) {
+							w.Serve(r, "")
+							w.Probes["handler-added-while-initial-list-in-flight"]++
+							listRace = true
+							// ... with a head start for the informer: with yield points on, it
+							// takes some of the listed objects into its cache before the handler comes
+							for i, n := 0, t.Pick(16, "list-head-start"); i < n; i++ {
+								runtime.Gosched()
+							}
+							break
+						}
+					}
+				}
 				h := &c18Handler{id: len(handlers), sub: s, addStep: w.step, world: w, cachedAt: w.Cache.View(w.inc, s.res, w.step)}
 				handlers = append(handlers, h)
 				s.handlers = append(s.handlers, h)
-				if op == "add-handler-racing" {
+				if op == "add-handler-racing" && listRace {
+					h.racing = true
+				} else if op == "add-handler-racing" {
 					// hand one pending frame of this resource to the informer and add the
 					// handler within the same kernel step
 					h.racing = true
@@ -426,7 +462,7 @@ func C18Scenario() *Scenario {
 				synctest.Wait()
 				w.Probe("c18:handlers-removed-in-the-middle-of-a-resync-round")
 				opLog = append(opLog, fmt.Sprintf("%d remove-handlers-midround sub#%d (handler#%d parked)", w.step, sub.id, h.id))
-			case "close", "close-racing":
+			case "close", "close-racing", "close-then-subscribe-at-once":
 				if len(open) == 0 {
 					return
 				}
@@ -437,7 +473,38 @@ func C18Scenario() *Scenario {
 				// users remove their handlers before closing (as both controllers do)
 				s.ri.Informer().RemoveEventHandlers()
 				markRemoved(s)
-				s.ri.Close()
+				// Close runs on a goroutine of its own: an implementation that waits for the
+				// informer to wind down needs the kernel to go on serving meanwhile
+				closed := make(chan struct{})
+				go func() { s.ri.Close(); close(closed) }()
+				returned := false
+				for i := 0; i < 300 && !returned; i++ {
+					w.settle()
+					if i == 0 && op == "close-then-subscribe-at-once" && (s.res != ResWidget || widgetKnown) {
+						// somebody else asks for the same resource while (or right after) the
+						// subscription is being closed: whatever Close is still doing, the new
+						// subscriber must get a working informer
+						ri, err := factory.Resource(s.res.APIVersion(), s.res.Plural)
+						if err != nil {
+							w.Violation = &Violation{Prop: "HARNESS", Class: "subscribe-failed", Detail: err.Error()}
+							return
+						}
+						s2 := &c18Sub{id: len(subs), res: s.res, ri: ri, openStep: w.step, inc: w.inc}
+						subs = append(subs, s2)
+						opLog = append(opLog, fmt.Sprintf("%d subscribe#%d %s (while #%d is being closed)", w.step, s2.id, s.res.Kind, s.id))
+					}
+					select {
+					case <-closed:
+						returned = true
+					default:
+						w.StepOnce(FairPolicy)
+					}
+				}
+				if !returned {
+					w.Violation = &Violation{Prop: "C18", Class: "close-never-returned", Sig: sig,
+						Detail: fmt.Sprintf("Close of subscription #%d (%s) had not returned after 300 kernel steps (ops: %v)", s.id, s.res.Kind, opLog)}
+					return
+				}
 				s.closeStep = w.step
 				opLog = append(opLog, fmt.Sprintf("%d close sub#%d", w.step, s.id))
 			case "object-edit", "object-create", "object-delete":
